@@ -277,13 +277,37 @@ def xp2(F, R):
         R.analysed(b, len(raw))
         for it in its:
             bad = None
+            mapped = False      # the items are no longer the store's (id, vertex) pairs: component 0 need not be the id any more
             for an, extra in it.adaptors:
                 if an in ("filter", "enumerate", "inspect", "peekable"):
                     continue
+                if an == "map":
+                    # one result per item, in the same order — provided the pair stays (the id or its text, the vertex)
+                    res = closure_result(it.body, extra[0], ("the-item",)) if extra else None
+                    core = strip_load(res) if res is not None else None
+                    keeps = False
+                    if core is not None and core[0] == "tuple" and len(core[1]) == 2:
+                        k0, k1 = strip_load(core[1][0]), strip_load(core[1][1])
+                        for _ in range(3):
+                            if k0[0] == "call" and k0[1].split("::")[-1] in ("to_string", "clone", "to_owned") and len(k0[2]) == 1:
+                                k0 = strip_load(deref_addr(it.body, k0[2][0])) if False else strip_load(k0[2][0])
+                        is0 = strip_sites(k0) == ("field", ("the-item",), "(tuple)::0")
+                        is1 = strip_sites(k1) == ("field", ("the-item",), "(tuple)::1")
+                        keeps = is0 and is1
+                    if not keeps:
+                        bad = "adaptor `map` that does not hand on (id, vertex) between the store iteration and the emission"
+                    mapped = True
+                    continue
                 if an in ("sorted",):
+                    if mapped:
+                        bad = "sorted after the items were mapped to something else"
                     continue
                 if an in ("sorted_by_key", "sorted_unstable_by_key"):
-                    if not sort_key_is(F, extra, 0):
+                    if mapped or not sort_key_is(F, extra, 0):
+                        bad = "sorted by something other than the vertex id"
+                    continue
+                if an in ("sorted_by", "sorted_unstable_by"):
+                    if mapped or not extra or not cmp_closure_on(F, extra[0], 0):
                         bad = "sorted by something other than the vertex id"
                     continue
                 bad = "adaptor `%s` between the ascending store iteration and the emission" % an
